@@ -112,6 +112,9 @@ namespace pika::threads::detail {
 
         get_thread_id_data(id)->interrupt(flag);    // notify thread
 
+        // Withdrawing a request (flag == false) must not disturb the thread.
+        if (!flag) return;
+
         // Set thread state to pending. If the thread is currently active we do
         // not retry. The thread will either exit or hit an interruption_point.
         set_thread_state(id, thread_schedule_state::pending, thread_restart_state::abort,
